@@ -75,6 +75,11 @@ func TestWorker(t *testing.T) {
 		betweenEpisodes()
 		if !res.Recycle {
 			emit(res)
+		} else if res.RaceText == "" {
+			// recycled for another reason than a race report (which has already
+			// emitted its result from inside the bubble): emit now and leave
+			emit(res)
+			os.Exit(0)
 		}
 	}
 }
